@@ -81,6 +81,8 @@ def body(c):
             cases.append(x)
     for i, x in enumerate(cases):
         x["id"] = i + 1
+        x.setdefault("ext", i % 3 == 2)      # pass-through extension registered (extension-aware executor paths)
+        x.setdefault("stream", i % 4 == 1)   # executed through Schema::execute_stream (first item) instead of execute
     vlib.write_ndjson(c.path("cases.ndjson"), cases)
     (binary,) = vlib.build_harness(["cexec"])
     p = vlib.run_harness(binary, [c.path("cases.ndjson"), c.path("trace.ndjson"), execcheck.SCHEMA], timeout=3000)
